@@ -433,7 +433,14 @@ func configs(tier string) []config {
 	}
 	for _, s := range scenarios {
 		small := strings.HasPrefix(s.Name, "S0") || s.Name == "S1"
+		// the scenarios with three individuals a side have about twice the scheduling points of the others
+		// (every cached accessor takes its object's mutex): their main configuration gets one deviation
+		// less in the quick tier
+		big := s.Name == "S7" || s.Name == "S8" || s.Name == "S10" || s.Name == "S11"
 		b := d
+		if big && tier != "thorough" {
+			b = d - 1
+		}
 		if small && tier == "thorough" && s.Name != "S1" {
 			b = d + 1
 		} else if small {
